@@ -3,7 +3,8 @@
 R/H monitor: forwarding recorders on data.time_series_idxs / times_series_to_multi_images /
 batch_time_series; each concrete return is compared with the window table of the statement applied to
 the *recorded inputs*; frames carry unique ids (type, channel, time, pixel, component), so a misplaced
-frame is detected exactly and named."""
+frame is detected exactly and named (exact comparison without pooling). Operand variety: NumPy-backed fields, keyword /
+default call forms, int32 dynamic fields next to non-integer constants, downsample 0..3; checkify index-check diagnostic."""
 from __future__ import annotations
 
 import itertools as it
